@@ -71,7 +71,13 @@ type DaemonScenario struct {
 	BeaconIDs  []string      `json:"beacon_ids,omitempty"` // default: ["default"]
 	DKGOnly    bool          `json:"dkg_only,omitempty"`
 	Crash      *CrashPlan    `json:"crash,omitempty"`
+	DKGFault   *DKGFault     `json:"dkg_fault,omitempty"`
 	Mode       string        `json:"mode,omitempty"` // engine sub-mode chosen by the generator (fuzz, secrets, ...)
+}
+
+type DKGFault struct {
+	Kind string `json:"kind"`
+	Node int    `json:"node"`
 }
 
 type dNode struct {
@@ -578,6 +584,7 @@ func (e *daemonEngine) runInitialDKG(id string, genesis time.Time) error {
 	}
 	time.Sleep(time.Second)
 	synctest.Wait()
+	e.afterJoin()
 	if err := e.cmd(leader, id, &pdkg.DKGCommand{Command: &pdkg.DKGCommand_Execute{Execute: &pdkg.ExecutionOptions{}}}); err != nil {
 		return fmt.Errorf("execute: %w", err)
 	}
